@@ -58,6 +58,8 @@ def run(W, p):
     total = sum(mult)
     if total > p["maxp"]:
         W.assume(False, "bounded number of particles")
+    if total == 0:
+        W.assume(False, "a table that releases no particle is refused at start-up (decided by C20); empty records are still reached with mult0 = 0 < mult1")
     x = [W.real(f"x{i}", 6, 14) for i in range(R)]
     w0 = [W.real(f"w{i}") for i in range(R)]
     u = W.real("u", -W.frac(1, 100), W.frac(1, 100))
